@@ -591,7 +591,7 @@ func Run(r *ev.Run) {
 	if len(missing) > 0 {
 		r.Incomplete(fmt.Sprintf("constructors without a table row: %v", missing))
 	}
-	per := r.N(1500, 8000)
+	per := r.N(1500, 250000)
 	var pool []zapcore.Field
 	for ri, rw := range rs {
 		for i := 0; i < per; i++ {
